@@ -377,7 +377,9 @@ var (
 	staticSegs = []string{"a", "b", "ab", "abc", "c", "foo", "foobar", "fo"}
 	paramSegs  = []string{"{x}", "{y}", "{z}", "a{x}", "ab{y}", "foo{z}"}
 	catchSegs  = []string{"*{w}", "*{v}", "a*{w}", "foo*{v}"}
-	hostPats   = []string{"a.b", "a.{t}", "{s}.b", "{s}.{t}", "b{s}.c", "a.b.c", "{s}.b.c", "a.{t}.c", "ab.b", "a{s}.b", "example.com", "{sub}.example.com"}
+	hostPats   = []string{"a.b", "a.{t}", "{s}.b", "{s}.{t}", "b{s}.c", "a.b.c", "{s}.b.c", "a.{t}.c", "ab.b", "a{s}.b", "example.com", "{sub}.example.com",
+		// several parameters in one node followed by static text; hostnames extending one another at '.' and '-'
+		"{s}.{t}.c", "{s}.{t}.example.com", "a{s}.b{t}.c", "{s}.{t}.{u}.b", "example.com.au", "a-b", "a.b-c", "{sub}.example.com.internal", "a.b.c.foo"}
 	valuePool  = []string{"a", "b", "ab", "abc", "c", "x1", "foo", "foobar", "fo", "zz", "*abc", "{x}", "a.b", "b-c", ".", ".."}
 	labelPool  = []string{"a", "b", "ab", "c", "x1", "foo", "example", "com", "bc"}
 	methodPool = []string{"GET", "GET", "GET", "POST", "POST", "PUT", "DELETE", "PATCH", "CONNECT", "OPTIONS", "FOO"}
